@@ -115,9 +115,9 @@ func blsMachine() *machine {
 			},
 			dec: func(d any, b []byte) error { return S(d).UnmarshalBinary(b) },
 			ctors: map[string]func() any{
-				"Zero": func() any { return new(bls12381.Scalar) },
-				"One":  func() any { return sc(1) },
-				"Big":  func() any { s := sc(0xfedcba9876543210); s.Sqr(s); s.Sqr(s); return s },
+				"Zero":    func() any { return new(bls12381.Scalar) },
+				"One":     func() any { return sc(1) },
+				"Big":     func() any { s := sc(0xfedcba9876543210); s.Sqr(s); s.Sqr(s); return s },
 				"Order-1": func() any { s := sc(1); s.Neg(); return s },
 			}},
 	}}
@@ -191,9 +191,15 @@ func fourqMachine() *machine {
 			enc: func(o any) []byte { return append([]byte{}, K(o)[:]...) },
 			dec: func(d any, b []byte) error { copy(K(d)[:], b); return nil },
 			ctors: map[string]func() any{
-				"k0":   func() any { return new([fourq.Size]byte) },
-				"k1":   func() any { return &[fourq.Size]byte{1} },
-				"kmax": func() any { k := new([fourq.Size]byte); for i := range k { k[i] = 0xff }; return k },
+				"k0": func() any { return new([fourq.Size]byte) },
+				"k1": func() any { return &[fourq.Size]byte{1} },
+				"kmax": func() any {
+					k := new([fourq.Size]byte)
+					for i := range k {
+						k[i] = 0xff
+					}
+					return k
+				},
 				"krnd": func() any { k := new([fourq.Size]byte); vlib.ExpandInto(k[:], 4242); return k },
 			}},
 	}}
